@@ -319,8 +319,8 @@ class Worker:
 
     def _add_task(self, task: RuntimeTask) -> None:
         """Start a task and add it to the loop."""
-        self._tasks[task.return_address] = task
         task.start()
+        self._tasks[task.return_address] = task
         self._ready_task_ids.put(task.return_address)
 
     def _handle_result(self, result: RuntimeResult) -> None:
@@ -427,10 +427,17 @@ class Worker:
             if addr in self._cancelled_task_ids or addr not in self._tasks:
                 # When a task is cancelled on the worker it is not removed
                 # from the ready queue because it is much cheaper to just
-                # discard cancelled tasks as they come out.
+                # discard cancelled tasks as they come out. A task that was
+                # being added while its cancel was handled is still listed.
+                stale = self._tasks.pop(addr, None)
+                if stale is not None:
+                    stale.cancel()
                 continue
 
-            task = self._tasks[addr]
+            task = self._tasks.get(addr)
+            if task is None:
+                # Cancelled by the incoming thread since the check above
+                continue
 
             if any(bcb in self._cancelled_task_ids for bcb in task.breadcrumbs):
                 # If any of the selected tasks ancestor tasks are cancelled
